@@ -442,6 +442,11 @@ def kcenters_cases(ctx, b, params, force_bipartite, seed):
     lab = all_labels(est)
     nontriv = len(set(lab)) >= 2
     idx = int(np.argmax(rec.mods))
+    # contract assumed of the assignment (PageRankClassifier): one label in 0..n_clusters-1 per node of the adjacency
+    n_nodes = nr + nc if bip else nr
+    for t, l in enumerate(rec.labels):
+        if len(l) != n_nodes or (len(l) and (min(l) < 0 or max(l) >= est.n_clusters)):
+            ctx.spec_fail(dict(sig0, output='contract:assignment'), desc, {'restart': t, 'labels': [int(x) for x in l]})
     impl = 'ok %s %s' % (fitted_str(est), kcenters_str(est))
     run = 'c05.kcenters %s %s %s %d' % (head, enc_listlist(rec.centers), enc_listlist(rec.labels), idx)
     spec = 'c05.spec_kcenters %s %d %d %s %d %s %s' % (
